@@ -154,7 +154,12 @@ func newGen(r *RNG) *Gen {
 
 func (g *Gen) pick(l []string) string { return l[g.r.Intn(len(l))] }
 
+var gHostsFav = []string{"localhost", "LOCALHOST", "", "1.2.3.4", "[::1]", "example.com", "h"}
+
 func (g *Gen) host() string {
+	if g.r.Chance(1, 8) {
+		return g.pick(gHostsFav) // hosts with special treatment somewhere in the standard
+	}
 	switch k := g.r.Intn(20); {
 	case k < 12:
 		return g.pick(gHostsASCII)
